@@ -142,6 +142,8 @@ std::unique_ptr<mp::BasicBackend> CreateSimBackend();
 // A driver built directly on mp::BasicBackend (no StdBackend, no model manager): registers its interrupt callbacks and "solves"
 // in RunFromNLFile().  Unlike the StdBackend drivers its application object can serve several Run() calls.
 std::unique_ptr<mp::BasicBackend> CreateMiniBackend();
+// A StdBackend driver with a do-nothing model manager (its backend object can be handed a model file again and again)
+std::unique_ptr<mp::BasicBackend> CreateLeanBackend();
 // the scripted callback registrations (script.registrations) due at solve iteration at_iter (-1: when the interrupter is handed over)
 void do_registrations(mp::Interrupter* inter, int at_iter);
 // "session" registration pattern: the solver session (handle) in use; a driver may open a new one while options are parsed
